@@ -113,10 +113,19 @@ Example colinfo_eq_hash_consistent :
   forall a b : obj, cls_eq colinfo_class a b = true -> cls_hkey colinfo_class a = cls_hkey colinfo_class b.
 Proof. intros a b. apply cls_eq_hash. vm_compute. reflexivity. Qed.
 
-(* Model: == does not look at the dataset, __hash__ includes hash_df_runtime(_dataset) *)
-Definition model_class : eqclass :=
-  mkclass [(1%positive,0); (2%positive,0); (3%positive,0); (4%positive,0); (5%positive,0); (6%positive,0); (7%positive,0); (8%positive,0); (9%positive,0)]
+(* Model — REPAIRED in /repo 15b36e3 (regression examples): == does not look at the dataset and compares the initial
+   individual estimates through .equals (term (7, 1)); __hash__ used to include hash_df_runtime(_dataset) (term (10, 1))
+   and the raw estimates frame (term (7, 0), unhashable: hash() raised); now it hashes only attributes == compares *)
+Definition model_class_before_fix : eqclass :=
+  mkclass [(1%positive,0); (2%positive,0); (3%positive,0); (4%positive,0); (5%positive,0); (6%positive,0); (7%positive,1); (8%positive,0); (9%positive,0)]
           [(1%positive,0); (2%positive,0); (3%positive,0); (4%positive,0); (5%positive,0); (6%positive,0); (7%positive,0); (8%positive,0); (10%positive,1); (9%positive,0)].
-Theorem model_hash_dataset_refuted :
-  exists a b : obj, cls_eq model_class a b = true /\ cls_hkey model_class a <> cls_hkey model_class b.
-Proof. apply (cls_inconsistent_refuted model_class (10%positive, 1)). vm_compute. left. reflexivity. Qed.
+Definition model_class : eqclass :=
+  mkclass [(1%positive,0); (2%positive,0); (3%positive,0); (4%positive,0); (5%positive,0); (6%positive,0); (7%positive,1); (8%positive,0); (9%positive,0)]
+          [(1%positive,0); (2%positive,0); (3%positive,0); (4%positive,0); (5%positive,0); (6%positive,0); (8%positive,0); (9%positive,0)].
+Example model_hash_fixed :
+  cls_consistent model_class = true /\
+  hashed_not_compared model_class_before_fix = [(7%positive, 0); (10%positive, 1)].
+Proof. split; vm_compute; reflexivity. Qed.
+Example model_eq_hash_consistent :
+  forall a b : obj, cls_eq model_class a b = true -> cls_hkey model_class a = cls_hkey model_class b.
+Proof. intros a b. apply cls_eq_hash. vm_compute. reflexivity. Qed.
